@@ -10,8 +10,8 @@ package notifier
 // send-interval defaults set there); its modules are then wrapped by a recording implementation of Module; every
 // response is pushed through the real responseLoop -> checkAndSendResponseToModules -> notifyModule, every group list
 // through the real processConsumerList (reply channel), every refresh cycle through the real sendClusterRequest ->
-// processClusterList -> processConsumerList with the probe answering the storage requests - all with the virtual
-// clock.  Output: per step the sorted set of Notify calls, then the cluster entries and every incident record.
+// processClusterList -> processConsumerList with the probe answering the storage requests - or (step "s") not taking
+// them off the storage channel, so that the real one-second send timeout expires - all with the virtual clock.  Output: per step the sorted set of Notify calls, then the cluster entries and every incident record.
 // Format: see /verif/ocaml/drv_notifier.ml.
 
 import (
@@ -86,6 +86,24 @@ func vnBit(b bool) byte {
 		return '1'
 	}
 	return '0'
+}
+
+// vnClone returns a Coordinator that shares every piece of state with nc except the WaitGroup and the storage channel.
+func vnClone(nc *Coordinator) *Coordinator {
+	c2 := &Coordinator{
+		App:               &protocol.ApplicationContext{Logger: nc.App.Logger, StorageChannel: make(chan *protocol.StorageRequest)},
+		Log:               nc.Log,
+		modules:           nc.modules,
+		minInterval:       nc.minInterval,
+		groupRefresh:      nc.groupRefresh,
+		evaluatorResponse: nc.evaluatorResponse,
+		quitChannel:       make(chan struct{}),
+		templateParseFunc: nc.templateParseFunc,
+		clusters:          nc.clusters,
+		clusterLock:       nc.clusterLock,
+	}
+	c2.notifyModuleFunc = c2.notifyModule
+	return c2
 }
 
 func vnHistory(t *vnToks) (res string) {
@@ -295,6 +313,48 @@ func vnHistory(t *vnToks) (res string) {
 				panic("verif: the refresh cycle did not send the expected storage requests")
 			}
 			nc.running.Wait()
+		case "s":
+			// A refresh whose storage request is not taken off App.StorageChannel within the second that
+			// helpers.TimeoutSendStorageRequest waits (real time): n = -1 - the cluster-list request of sendClusterRequest;
+			// n >= 0 - the cluster list is answered, then every group-list request of processClusterList.  The request is
+			// offered on a channel nobody reads; the goroutine waiting for the reply that never comes stays blocked for ever
+			// in the unchanged code (and keeps nc.running above zero), so the history goes on with a second Coordinator
+			// that shares all state (modules, clusters map, locks) but has its own WaitGroup and storage channel.
+			n := t.int()
+			dead := make(chan *protocol.StorageRequest)
+			live := nc.App.StorageChannel
+			wait := 300 * time.Millisecond
+			if n < 0 {
+				nc.App.StorageChannel = dead
+				nc.sendClusterRequest() // returns when the offer has timed out
+			} else {
+				clusterList := make([]string, n)
+				distinct := make(map[string]bool)
+				for i := 0; i < n; i++ {
+					clusterList[i] = "c" + strconv.Itoa(t.int())
+					distinct[clusterList[i]] = true
+				}
+				served := make(chan struct{})
+				cur := nc
+				go func() {
+					defer close(served)
+					request := <-live
+					if request.RequestType != protocol.StorageFetchClusters {
+						panic("verif: expected StorageFetchClusters")
+					}
+					cur.App.StorageChannel = dead // read by processClusterList only after it has received the list
+					request.Reply <- clusterList
+				}()
+				nc.sendClusterRequest()
+				select {
+				case <-served:
+				case <-time.After(20 * time.Second):
+					panic("verif: the refresh cycle did not send the expected storage request")
+				}
+				wait += time.Duration(len(distinct)) * time.Second // processClusterList offers the requests one after the other
+			}
+			time.Sleep(wait) // whatever the code does when the offer times out has happened by now
+			nc = vnClone(nc)
 		default:
 			panic("verif: unknown step kind " + kind)
 		}
